@@ -39,6 +39,7 @@ type Profile struct {
 	Sample  []wop
 	Releaser int // percent: a releaser task opens gates one at a time with Settle between
 	ReaderPct int
+	CloseInFnPct int
 	BatchWaitPct int
 	ErrReaderPct int
 	UseCtxPct int
@@ -173,6 +174,9 @@ func generate(r *simrt.Rand, pf *Profile) (Cfg, *Program) {
 			s.Outcome = 1
 		case x < pf.ErrPct+pf.PanicPct:
 			s.Outcome = 2 + r.Intn(2)
+		}
+		if r.Chance(pf.CloseInFnPct) {
+			s.CloseInFn = true
 		}
 		if r.Chance(pf.GatedPct) {
 			s.Gated = true
@@ -519,6 +523,7 @@ func init() {
 			pf.GatedPct, pf.DelayPct = 25, 20
 			pf.ErrPct, pf.PanicPct = 10, 5
 			pf.Cancellers, pf.CancelOps = [2]int{1, 3}, [2]int{1, 5}
+			pf.CloseInFnPct = 5
 			pf.Cancel = []wop{{opCloseJob, 8}, {opPurge, 2}, {opCloseQueue, 1}}
 			pf.Waiters, pf.WaitOps = [2]int{0, 2}, [2]int{1, 3}
 			pf.Wait = []wop{{opWait, 4}, {opResult, 4}}
@@ -605,7 +610,7 @@ func init() {
 		NonTrivial: func(ep *Episode) bool { return ep.W.maxInflight >= ep.W.effConc(ep.W.cfg.Conc) || ep.W.maxInflight >= 2 },
 	})
 	// C07 — outcomes
-	register(&Property{ID: "C07", Rule: "episodes in which >=2 jobs with different outcomes (value/error/panic) were in flight or queued together and their handles were read; distinct = schedule/program hash",
+	register(&Property{ID: "C07", Owns: []string{"C08.a"}, Rule: "episodes in which >=2 jobs with different outcomes (value/error/panic) were in flight or queued together and their handles were read; distinct = schedule/program hash",
 		Gen: func(r *simrt.Rand, tier string) (Cfg, *Program) {
 			pf := baseProfile()
 			pf.Conc = []int{1, 2, 3, 4, 8}
